@@ -1780,7 +1780,7 @@ SUB_EXTRA = [('eb', 3, [2], False, 1), ('y', 6, [0, 2], True, 2), ('z', 1, [0, 1
 def sub_plan(rng, tier):
     must = [(f, 4, 3, 3, 2, False, p) for f in (1, 2, 5) for p in (False, True)] + \
            [(1, 3, 3, 2, 6, True, True), (2, 6, 1, 5, 15, True, False), (5, 11, 2, 4, 13, True, True), (5, 8, 5, 2, 4, False, False)]
-    n = 4 if tier == 'quick' else 300
+    n = 4 if tier == 'quick' else 220
     out = list(must)
     while len(out) < len(must) + n:
         fmt = rng.choice([1, 2, 5])
